@@ -23,7 +23,7 @@
    event_handler; flat sections (nested lists of sub-configs only when absent).                      *)
 From Common Require Import Prelude.
 From Coq Require Import QArith.
-From C12 Require Import Base Model FloatLemmas Lemmas.
+From C12 Require Import Base Model FloatLemmas DecText Lemmas.
 From C12.gen Require Import Time.
 Open Scope Z_scope.
 
@@ -46,6 +46,18 @@ Theorem pow2_int_input_partial :
   forall m z r, validate_item m n_pow2 (YInt z) = Ok r -> is_pow2_int r = true.
 Proof. exact pow2_int_input_l. Qed.
 Print Assumptions pow2_int_input_partial.
+
+(* gain: the documented result range 0.0 .. 1.0 is NOT what the code guarantees (known finding
+   gain-nan-unclamped) ... *)
+Theorem gain_range_refuted : exists m item r, validate_item m n_gain item = Ok r /\ is_gain r = false.
+Proof. exact gain_range_refuted_l. Qed.
+Print Assumptions gain_range_refuted.
+
+(* ... except for NaN, the guard that excludes exactly the recorded class *)
+Theorem gain_range_partial :
+  forall m item f t, validate_item m n_gain item = Ok (YFloat f t) -> f <> FNaN -> is_gain (YFloat f t) = true.
+Proof. exact gain_range_partial_l. Qed.
+Print Assumptions gain_range_partial.
 
 (* the same for a whole spec entry "type|validator|default": lists, sets, dicts and event-handler dicts are
    normalised to containers whose every element / key / value is well typed; item = None means "absent"
@@ -156,6 +168,37 @@ Theorem time_string_value_times_unit_partial :
     string_to_ms (YStr ((b ++ [c]) ++ suf)) = Ok N.
 Proof. exact time_float_units. Qed.
 Print Assumptions time_string_value_times_unit_partial.
+
+(* ... and when value times unit is NOT a whole number of milliseconds (binary rounding matters: "0.0005s",
+   "2.675m", "1.0005s"): for every decimal value x that is zero or at least 10^-9, with x*unit < 2^49, the result
+   is an integer within 3/4 ms of the exact product, i.e. one of the two integers nearest to value times unit
+   (1/2 from round(), < 1/4 from the at most three binary64 roundings).  Same hypothesis on float() as above. *)
+Theorem time_string_fractional_partial :
+  forall b c suf unit x,
+    is_num_end c = true -> unit_ms (upper suf) = Some unit ->
+    e_float_of_str (upper b ++ [c]) = Ok (fnum x) ->
+    (x == 0 \/ XLO <= x)%Q -> (x * unit < P49)%Q ->
+    exists N, string_to_ms (YStr ((b ++ [c]) ++ suf)) = Ok N /\ (Qabs.Qabs (inject_Z N - x * unit) <= 3 # 4)%Q.
+Proof. exact time_float_units_frac. Qed.
+Print Assumptions time_string_fractional_partial.
+
+(* FULL statement for plain decimal texts, no hypothesis about float(): for every text  d+ "." d*  (at most 400
+   digits) and every suffix s / sec / m / h / d in any letter case, with value zero or >= 10^-9 and
+   value*unit < 2^49: string_to_ms(text + suffix) is an integer within 3/4 ms of value times unit, and EQUAL to
+   value times unit whenever that is a whole number of milliseconds.  [dec_q] is the rational the decimal text
+   denotes; that the model's float() (parse_float: strip, sign, digit scan, rnd53) reads it so is PROVED
+   (DecText.parse_decimal), the model's float() itself is tied to CPython by the correspondence run. *)
+Theorem time_string_value_times_unit :
+  forall c ip fp suf unit,
+    is_digit c = true -> all_digits ip = true -> all_digits fp = true ->
+    (length (c :: ip) + length fp <= 400)%nat ->
+    unit_ms (upper suf) = Some unit ->
+    (dec_q (c :: ip) fp == 0 \/ XLO <= dec_q (c :: ip) fp)%Q -> (dec_q (c :: ip) fp * unit < P49)%Q ->
+    exists N, string_to_ms (YStr (dec_text (c :: ip) fp ++ suf)) = Ok N /\
+              (Qabs.Qabs (inject_Z N - dec_q (c :: ip) fp * unit) <= 3 # 4)%Q /\
+              (forall M, (dec_q (c :: ip) fp * unit == inject_Z M)%Q -> N = M).
+Proof. exact time_decimal_l. Qed.
+Print Assumptions time_string_value_times_unit.
 
 (* ms and msec: the integer before the suffix, in any letter case ("200msec" is accepted) *)
 Theorem time_string_int_units :
